@@ -53,6 +53,8 @@ def compare_result(mo, io):
         if isinstance(x, list) and x and x[0] == "result-is-not-the-receiver":
             return ("the editing method returned another object than its receiver; the receiver now reads "
                     f"{sx.show(x[1])[:200]} (the model's result is what the receiver has to be afterwards)")
+        if isinstance(x, list) and x and x[0] == "another-container-class-prunes-differently":
+            return f"remove_by on a {x[1]} holding the same leaves keeps {sx.show(x[2])[:200]}, the condition holds for {sx.show(x[3])[:200]}"
         if isinstance(x, list) and x and x[0] == "aliased-with-receiver":
             return (f"the returned event shares {x[1]} mutable object(s) (events / durations) with the receiver: the model's result is "
                     "a new value; an in-place edit of either would change the other")
@@ -75,6 +77,8 @@ def alias_failure(io):
     if not isinstance(io, list):
         return None
     for x in io[2:]:
+        if isinstance(x, list) and x and x[0] == "another-container-class-prunes-differently":
+            return f"remove_by on a {x[1]} holding the same leaves keeps {sx.show(x[2])[:200]}, the condition holds for {sx.show(x[3])[:200]}"
         if isinstance(x, list) and x and x[0] == "result-is-not-the-receiver":
             return f"the editing method returned another object than its receiver, which now reads {sx.show(x[1])[:200]}"
         if isinstance(x, list) and x and x[0] == "aliased-with-receiver":
@@ -138,3 +142,11 @@ def hist_oracle(single, case, io):
             break
         prev = step[1]
     return None
+
+
+def case_note(case):
+    """how the M1 runner executes this case (decided by the case text, see harness/impl_m1.py set_resolution)"""
+    if sum(map(ord, sx.show(case))) % 8 == 3:
+        return ("this case runs with mutwo.core_parameters.configurations.ROUND_DURATION_TO_N_DIGITS = 12; one tick of the case is "
+                "1e-12 beats (all times and durations above are in ticks)")
+    return "one tick of the case is 1e-10 beats (the default resolution)"
